@@ -344,6 +344,41 @@ func runC17(c *core.Ctx) {
 	}
 	c.Floor("hdr.pair", 12)
 
+	// ---- hdr.helpers: the laws (not-set bookkeeping, cut at the first newline, name:key sub-fields, compound operators)
+	// live in the shared helpers get/assign/unset{Request,Response}HeaderValue. A scope's variable object that serves
+	// `req.http.X` / `resp.http.X` by calling net/http's Header.Get / Set / Del itself - the key comes out of the
+	// header-name regular expression - implements none of them for that scope (sibling rule: the other scopes go
+	// through the helpers). Header.Add is the `add` statement and stays direct everywhere.
+	for _, fn := range vfuncs {
+		if fn.Signature.Recv() == nil || !strings.HasSuffix(core.NamedTypeName(derefType(fn.Signature.Recv().Type())), "ScopeVariables") {
+			continue
+		}
+		ord := map[string]int{}
+		for _, b := range fn.Blocks {
+			for _, in := range b.Instrs {
+				_, k, op, ok := isNetHeaderCall(in, "Get", "Set", "Del")
+				if !ok {
+					continue
+				}
+				fromRegex := false
+				for x := range core.BackSliceLocal(k) {
+					if call, isCall := x.(*ssa.Call); isCall {
+						if cal := call.Common().StaticCallee(); cal != nil && cal.Name() == "FindStringSubmatch" {
+							fromRegex = true
+						}
+					}
+				}
+				if !fromRegex {
+					continue
+				}
+				ord[op]++
+				key := fmt.Sprintf("%s|Header.%s#%d", core.FnName(fn), op, ord[op])
+				c.Report("hdr.helpers", key, in.Pos(), fmt.Sprintf("%s serves a `*.http.NAME` variable with net/http's Header.%s itself instead of the shared header helpers: in this scope the header never reads as not set, is not cut at a newline, `NAME:key` is taken for a header of that literal name and compound operators replace the value", core.FnName(fn), op))
+			}
+		}
+	}
+	c.Instances("hdr.helpers", 0)
+
 	// ---- hdr.exact: a name or key taken from the program selects exactly the header, sub-field or cookie of that
 	// name. Matching it by prefix or substring is the wildcard form (`unset req.http.X-*`) and allowed only behind the
 	// test for the trailing `*`; anywhere else `Cookie:id` also hits `id_token`.
